@@ -153,9 +153,9 @@ def make_model(sources, shape, wcshelper, mask=False, frac=None, sigma=4):
         # Mask the output image if requested
         if mask:
             if frac is not None:
-                indices = np.where(model >= (frac*src.peak_flux))
+                indices = np.where(abs(model) >= abs(frac*src.peak_flux))
             else:
-                indices = np.where(model >= (sigma*src.local_rms))
+                indices = np.where(abs(model) >= (sigma*src.local_rms))
             # somehow m[x,y][indices] = np.nan doesn't assign any values
             # so we have to do the more complicated
             # m[x[indices],y[indices]] = np.nan
